@@ -17,6 +17,7 @@ From DV Require Import Model.PyPrims Model.C13Model Model.C13GenPrims Gen.Routes
   Proofs.C13GenStmts Proofs.C13GenObjects Proofs.C13GenWf Proofs.C13GenTaxa Proofs.C13GenReader Proofs.C13GenYielder
   Proofs.C13GenGlue Proofs.C13GenEntry Proofs.C13GenFinal.
 From DV Require Import Model.C13MapPrims Gen.RoutesMapper Proofs.C13GenMapper Proofs.C13MapperTie.
+From DV Require Import Model.C13SelectPrims Gen.RoutesSelect Proofs.C13GenSelect.
 From Coq Require String. Import String.StringSyntax.
 Import ListNotations.
 Open Scope Z_scope.
@@ -666,3 +667,98 @@ Theorem gen_separate_is_alone :
   vrun1 lower mA (ops_of false sched) = Ok outA /\ vrun1 lower mB (ops_of true sched) = Ok outB.
 Proof. exact vrun2_alone. Qed.
 Print Assumptions gen_separate_is_alone.
+
+(* ============ wave 8: which namespace OBJECT a data-set read uses ============
+
+   Gen/RoutesSelect.v is compiled by py/dv/gen_routes_select.py from the CURRENT text of the namespace-selection
+   statements of DataReader.read_dataset and DataSet._parse_and_add_from_stream (= DataSet.read) over
+   Model/C13SelectPrims.v.  A namespace expression is a handle or None; `is None` / `is` are identity, but a truth
+   test (`x or y`, `if x:`, `not x`) is ns_truthy st x: it looks at the MEMBERS of the namespace object in the store st,
+   so None and a brand-new EMPTY namespace are distinguished.  Every theorem quantifies over the store. *)
+
+(* an explicitly given namespace is the one used, whatever it contains: reader.read_dataset(dataset=ds,
+   taxon_namespace=<object h>) with ds unattached, or attached to the same object, hands self._read the factory
+   `lambda label: <object h>` and attaches the reader to that object - for EVERY store, in particular when h is empty *)
+Theorem gen_explicit_namespace_is_used :
+  forall (st : nsstore) (a d : option nat) (h : nat),
+  d = None \/ d = Some h ->
+  gs_read_dataset_select st a d (Some h) = Ok (SelFixed (Some h), Some h).
+Proof. exact explicit_namespace_is_used. Qed.
+Print Assumptions gen_explicit_namespace_is_used.
+
+(* the complete selection table of read_dataset (a: reader.attached_taxon_namespace before the call, d:
+   dataset.attached_taxon_namespace, t: the taxon_namespace argument): it does not mention the store *)
+Theorem gen_read_dataset_selection :
+  forall (st : nsstore) (a d t : option nat),
+  gs_read_dataset_select st a d t
+  = match t, d with
+    | Some h, None => Ok (SelFixed (Some h), Some h)
+    | Some h, Some h' => if Nat.eqb h' h then Ok (SelFixed (Some h), Some h) else Err ValueErr
+    | None, Some h' => Ok (SelFixed (Some h'), Some h')
+    | None, None => Ok (SelNew, a)
+    end.
+Proof. exact read_dataset_select_spec. Qed.
+Print Assumptions gen_read_dataset_selection.
+
+(* DataSet.read(.., taxon_namespace=kw) on a data set whose attached_taxon_namespace is d (the compiled prefix of
+   _parse_and_add_from_stream followed by the compiled selection of read_dataset on a new reader) *)
+Theorem gen_dataset_read_selection :
+  forall (st : nsstore) (d kw : option nat),
+  gs_dataset_read_namespace st d kw
+  = match kw, d with
+    | Some h, None => Ok (SelFixed (Some h), Some h)
+    | Some h, Some h' => if Nat.eqb h' h then Ok (SelFixed (Some h), Some h) else Err ValueErr
+    | None, Some h' => Ok (SelFixed (Some h'), Some h')
+    | None, None => Ok (SelNew, None)
+    end.
+Proof. exact dataset_read_namespace_spec. Qed.
+Print Assumptions gen_dataset_read_selection.
+
+Theorem gen_dataset_read_explicit_namespace_is_used :
+  forall (st : nsstore) (d : option nat) (h : nat),
+  d = None \/ d = Some h ->
+  gs_dataset_read_namespace st d (Some h) = Ok (SelFixed (Some h), Some h).
+Proof. exact dataset_read_explicit_namespace_is_used. Qed.
+Print Assumptions gen_dataset_read_explicit_namespace_is_used.
+
+(* non-vacuity: in st_example namespace 0 is EMPTY (falsy, like None) and namespace 1 is not; both are used when given *)
+Theorem gen_explicit_empty_namespace_example :
+  ns_truthy st_example (Some 0%nat) = false /\ ns_truthy st_example None = false
+  /\ ns_truthy st_example (Some 1%nat) = true
+  /\ gs_dataset_read_namespace st_example None (Some 0%nat) = Ok (SelFixed (Some 0%nat), Some 0%nat)
+  /\ gs_dataset_read_namespace st_example None (Some 1%nat) = Ok (SelFixed (Some 1%nat), Some 1%nat)
+  /\ gs_dataset_read_namespace st_example None None = Ok (SelNew, None)
+  /\ gs_dataset_read_namespace st_example (Some 1%nat) (Some 0%nat) = Err ValueErr.
+Proof. exact explicit_empty_namespace_example. Qed.
+Print Assumptions gen_explicit_empty_namespace_example.
+
+(* the store is not idle: the truthiness form `taxon_namespace or dataset.attached_taxon_namespace` (hand-written
+   variant select_or_form, the shape of seeded change C13-9) selects dataset.new_taxon_namespace for an explicitly
+   given EMPTY namespace where the compiled code selects the given object; on NON-EMPTY namespaces the two agree *)
+Theorem gen_truthiness_selection_refuted :
+  exists (st : nsstore) (h : nat),
+    select_or_form st None None (Some h) = Ok (SelNew, None)
+    /\ gs_read_dataset_select st None None (Some h) = Ok (SelFixed (Some h), Some h).
+Proof. exact truthiness_selection_refuted. Qed.
+Print Assumptions gen_truthiness_selection_refuted.
+
+Theorem gen_truthiness_selection_nonempty :
+  forall (st : nsstore) (a d : option nat) (h : nat),
+  st h <> [] -> (d = None \/ d = Some h) ->
+  select_or_form st a d (Some h) = gs_read_dataset_select st a d (Some h).
+Proof. exact truthiness_selection_nonempty. Qed.
+Print Assumptions gen_truthiness_selection_nonempty.
+
+(* tie to the value-level translation of the WHOLE method (Gen/Routes.v g_read_dataset, which gen_dataset_entry
+   relates to the model's dataset_get): the factory and the reader attribute it hands to self._read are the ones the
+   object-level selection computes, for every store *)
+Theorem gen_read_dataset_uses_selection :
+  forall (T : Type) (st : nsstore) (fuel : nat) (s : gst T) (rd : reader_read_t T) (a : option nat) (et ec : bool) (stream : unit)
+         (d t : option nat) (xt xc : bool) (saf : option unit),
+  g_read_dataset T fuel s rd a et ec stream d t xt xc saf
+  = (do r <- gs_read_dataset_select st a d t ;;
+     let '(f, a') := r in
+     do r3 <- rd fuel s a' et ec stream (fac_of_sel f) (if xt then None else Some TLNew) (if xc then None else Some tt) saf (Some tt) ;;
+     let '(p, s') := r3 in Ok (p, s')).
+Proof. exact read_dataset_uses_selection. Qed.
+Print Assumptions gen_read_dataset_uses_selection.
